@@ -342,3 +342,21 @@ Definition gate_okb := gate_ok_from false.
 Definition modelled_landmarks : list N :=
   [30; 31; 1; 4; 2; 3; 4; 5; 6; 7; 8; 9; 10; 11; 28; 10; 12; 29; 13; 14; 15; 28; 10; 16; 17; 18; 19;
    20; 21; 22; 23; 24; 25; 26; 27; 26]%N.
+(* the repaired skeleton (patches/C08-recheck-eventless.diff): after the TRANSITION_FOUND branch an
+   `else if (_event)` branch: set SPONTANEOUS; return MICROSTEPPED *)
+Definition modelled_landmarks_repaired : list N :=
+  [30; 31; 1; 4; 2; 3; 4; 5; 6; 7; 8; 9; 10; 11; 28; 10; 12; 29; 13; 14; 15; 28; 10; 16; 17; 18; 19;
+   20; 21; 22; 23; 24; 23; 26; 25; 26; 27; 26]%N.
+Definition landmarks_for (recheck : bool) : list N :=
+  if recheck then modelled_landmarks_repaired else modelled_landmarks.
+
+Fixpoint listN_eqb (a b : list N) : bool :=
+  match a, b with
+  | [], [] => true
+  | x :: a', y :: b' => N.eqb x y && listN_eqb a' b'
+  | _, _ => false
+  end.
+(* which variant of the control model a regenerated landmark sequence corresponds to *)
+Definition skeleton_recheck (l : list N) : option bool :=
+  if listN_eqb l modelled_landmarks then Some false
+  else if listN_eqb l modelled_landmarks_repaired then Some true else None.
